@@ -660,10 +660,11 @@ def run(ctx):
         r["failures"].append("fact extraction from archiver/parent.rs (is_parent clauses, shapes of process/set_dir/backup_tree/get_parent) failed: " + err)
     cov["extracted_facts"] = meta
     cov["trusted_base"] += ["props/C11/extract.py (clauses and conjunction of Parent::is_parent -> Extracted.v; shape checks of p_node/process/set_dir/backup_tree/FileArchiver::process/get_parent/archive)",
-                            "crates/core/src/verif_hooks/c11.rs (in-memory backend+index MemTrees; ParentHandle wrapping Parent::new/process/tree_id)"]
+                            "crates/core/src/verif_hooks/c11.rs (in-memory backend+index MemTrees; ParentHandle wrapping Parent::new/process/tree_id; tree_iterator_items wrapping TreeIterator)"]
     ctx.assumptions += [
         "chunking+hashing is a function of the file's bytes and the repository's chunker configuration (Section variable `chunks`); the tree id is a function of the node list (`tid`); no collision-freedom is needed for parent_equals_full",
-        "the source after TreeIterator is a finite tree: directories bracket their entries (NewTree .. EndTree); the composition TreeIterator -> Parent::process -> FileArchiver::process -> TreeArchiver::add is modelled by structural recursion over that tree threading the real Parent state (`arch`); the event-level functions it is built from are the ones compared with the hooked Parent; the composition itself is observed end to end only",
+        "the source walker (LocalSource / any ReadSource) yields a directory walk under one anchor: directories before their content, unique names per directory (hypotheses wfw / anchored of the path-stream theorems); TreeIterator and the item-by-item pipeline are modelled (ModelIter.v), compared with the real TreeIterator (hook) and proved to refine the structural recursion `arch`",
+        "get_parent is modelled for force, plain explicit ids and 'latest of the group'; latest~N, id prefixes and mixing `latest` with ids are not; `pick` = any snapshot of maximal time (ties open in k_smallest_by)",
         "a parent snapshot 'produced by a correct backup' = its trees are `read_all` of some earlier source state; trees missing from the repository are allowed (store returns None), trees present are the ones that were written (`stored`)",
         "premise of parent_equals_full (`visible`): an entry with equal type, size, mtime and (unless ignore_ctime) ctime (None on either side counts as equal, as in the code) has equal content; source leaves carry no content of their own and are not directories; directory entries of parent sources are directories",
         "names are numbers ordered like the byte strings (fixed-width decimal names in the harness); timestamps are whole seconds in the hook cases",
